@@ -390,7 +390,8 @@ def save_safetensors(
             where the first argument is the tensor being saved and the second contains metadata such as filename and progress.
 
     Raises:
-        ValueError: If duplicate initializer names are found in the model.
+        ValueError: If duplicate initializer names are found in the model, or an
+            initializer is named ``__metadata__`` (reserved by the safetensors format).
     """
     # Derive external_data from path if not provided
     path_str = str(path)
@@ -420,6 +421,14 @@ def save_safetensors(
             if tensor.dtype == ir.DataType.STRING:
                 # String tensors have no byte representation; they always stay in the proto.
                 continue
+            if name == "__metadata__":
+                # The safetensors header reserves this key for file metadata: a tensor
+                # stored under it is skipped when the file is read back (the initializer
+                # would stay in the proto) and the safetensors library rejects the file.
+                raise ValueError(
+                    f"Initializer name '__metadata__' (in graph {graph.name!r}) is reserved by "
+                    "the safetensors format. Rename the initializer before saving to safetensors."
+                )
             if name in initializer_names:
                 raise ValueError(
                     f"Duplicate initializer name found: {name} (in graph {graph.name!r})."
